@@ -198,6 +198,17 @@ def whole_stock_cases(chk):
                'solventv': ops['out'], 'osolv': g.fresh()}
         g.emit(op2, 'solfromc:solvent-holds-solute')
         out.append(g)
+    # a nanomolar stock (nanomoles of solute in 100 mL): the request is as reachable as for a molar one
+    for i, (conc, total) in enumerate([({'v': '50', 'np': 'n', 'nb': 'mol', 'dp': '', 'db': 'L'}, q('10', 'm', 'L')),
+                                       ({'v': '0.2', 'np': 'u', 'nb': 'mol', 'dp': '', 'db': 'L'}, q('5', 'm', 'L'))]):
+        g = gen.Gen(random.Random(chk.seed * 100003 + 127000 + i), nsubs=9)
+        op = {'op': 'newc', 'out': g.fresh(), 'name': g.name(), 'init': [(1, q('100', 'm', 'L')), (5, q('50', 'n', 'mol'))]}       # 500 nM
+        if not g.emit(op, 'nanomolar:stock')['ok']:
+            continue
+        op2 = {'op': 'solfrom', 'src': op['out'], 'solute': 5, 'c': conc, 'q': total, 'name': g.name(), 'osrc': g.fresh(), 'out': g.fresh(),
+               'solvent': 1, 'expect': 'feasible'}
+        g.emit(op2, 'solfrom:nanomolar')
+        out.append(g)
     return out
 
 
